@@ -224,6 +224,11 @@ impl Sched {
 
     fn finish(&self, me: usize) {
         let mut st = self.m.lock().unwrap();
+        if st.abort.is_some() {
+            // abandoned after an abort: the schedule is already closed
+            st.finished[me] = true;
+            return;
+        }
         st.finished[me] = true;
         st.writer_waiting[me] = false;
         st.last_label[me] = "";
@@ -358,7 +363,10 @@ pub fn run_schedule(cfg: &ConcCfg, sched_seed: u64, pct: Option<usize>, replay: 
         POOL.with(|p| p.borrow_mut().clear());
     }
     built.ctl.sched_on.store(false, std::sync::atomic::Ordering::SeqCst);
-    let st = sched.m.lock().unwrap();
+    let (decisions, preemptions, labels) = {
+        let st = sched.m.lock().unwrap();
+        (st.decisions.clone(), st.preemptions, st.labels.clone())
+    };
     let uni = universe_of(cfg);
     let (final_hash, final_desc) = if aborted.is_none() { built.ctl.quiet(|| snap_desc(&built.root, &uni)) } else { (0, "aborted".into()) };
     // C17 post-condition: every requested path and each ancestor is a directory
@@ -383,7 +391,7 @@ pub fn run_schedule(cfg: &ConcCfg, sched_seed: u64, pct: Option<usize>, replay: 
     }
     // after an abort the abandoned threads run uncontrolled: their results are not part of the run
     let r = if aborted.is_some() { vec![vec![]; n] } else { results.lock().unwrap().clone() };
-    Ok(ConcRun { results: r, final_hash, final_desc, decisions: st.decisions.clone(), abort: aborted, preemptions: st.preemptions, labels: st.labels.clone(), post_ok })
+    Ok(ConcRun { results: r, final_hash, final_desc, decisions, abort: aborted, preemptions, labels, post_ok })
 }
 
 fn results_hash(results: &[Vec<Res>], final_hash: u64) -> u64 {
